@@ -350,7 +350,7 @@ static void gen_c06(uint64_t seed, uint64_t run, const std::string& tier, Plan& 
   common_knobs(p, g, rs, CHK_WALK | CHK_SER | CHK_ENVDEP | CHK_PARSEVAL | CHK_PARSEFAIL);
   g.go.dup_keys = g.r.chance(1, 3); g.go.big_strings = true; g.go.max_str = (int)g.r.range(4, 40);
   g.go.nonfinite = g.r.chance(1, 6);
-  p.knobs["tight_growth"] = g.r.chance(1, 2);
+  p.knobs["tight_growth"] = g.huge ? 0 : (int64_t)g.r.chance(1, 2);
   p.knobs["flavours"] = 7;
   size_t n = (size_t)g.r.range(3, tier == "thorough" ? 40 : 24);
   for (size_t i = 0; i < n; i++) {
